@@ -2,13 +2,14 @@ import Verif
 /-!
 # Driver: reads `cfg` / `ev` / `end` lines on stdin, prints one verdict line per script and check
 -/
-open Verif Verif.Proto Verif.Check Verif.Accept Verif.Twin Verif.Lin
+open Verif Verif.Proto Verif.Check Verif.Accept Verif.Twin Verif.Lin Verif.CheckL2
 
 structure Script where
   idx : Nat := 0
   cfg : Option (Cfg × Nat × String) := none
   evs : Array Event := #[]
   hs : Array HOp := #[]
+  sts : Array (Nat × String) := #[]
   bad : Option String := none
   live : Option (Int × Int) := none
 
@@ -43,6 +44,11 @@ def finish (s : Script) : IO Unit := do
     | some (p, .ok n kf) => IO.println s!"S {s.idx} TWIN {p} OK n={n} kf={",".intercalate kf}"
     | some (p, .fail ev dt) => IO.println s!"S {s.idx} TWIN {p} FAIL ev={ev} {dt}"
     | none => pure ()
+    if !s.sts.isEmpty then
+      match CheckL2.check cfg evs s.sts.toList with
+      | some (none, n) => IO.println s!"S {s.idx} L2 OK n={n}"
+      | some (some d, _) => IO.println s!"S {s.idx} L2 DIFF {d}"
+      | none => pure ()
     match s.live with
     | some (l, m) => if l ≠ 0 || m < 0 then IO.println s!"S {s.idx} LIVE FAIL live={l} min={m}" else pure ()
     | none => pure ()
@@ -75,7 +81,10 @@ partial def loop (h : IO.FS.Stream) (s : Script) : IO Unit := do
     match l.toInt?, m.toInt? with
     | some l, some m => loop h { s with live := some (l, m) }
     | _, _ => loop h { s with bad := some ("x: " ++ line.trimAscii.toString) }
-  | "st" :: _ => loop h s
+  | "st" :: inst :: rest =>
+    -- structure dump of instance `inst` after the most recent event
+    if inst == "0" && s.evs.size > 0 then loop h { s with sts := s.sts.push (s.evs.size - 1, " ".intercalate rest) }
+    else loop h s
   | _ => loop h { s with bad := some ("line: " ++ line.trimAscii.toString) }
 
 def main : IO Unit := do
